@@ -125,6 +125,8 @@ def basis_points(rng, b, tol):
             r = rng.choice([-3, -2, -1, 1, 2, 3])
             x = rng.choice(uniq) if rng.random() < 0.5 else start + T * Fr(rng.randint(0, 64), 64)
             pts.append((x + r * T, 'wrap'))
+        # images of the seam itself (both one-sided limits there are part of the statement)
+        pts.append((start + rng.choice([-2, -1, 2, 3]) * T, 'wrap'))
     else:
         pts.append((start - 1, 'out'))
         pts.append((end + Fr(1, 2), 'out'))
